@@ -27,12 +27,20 @@ FracCases == { [kind |-> "frac", src |-> SpellFraction(n, f), m |-> n, e |-> -f]
 TextCases == { [kind |-> "text", src |-> SpellText(x[1], x[2], x[3]), chars |-> TextValue(x[1], x[2], x[3])] :
                  x \in { y \in SeqsUpTo(TextAlphabet, LEN) \X {"raw", "esc", "uni"} \X {1, 3, 4} : y[1] # <<>> \/ y[3] = 1 } }
                \* the empty text is spelled "" (a run of only quotes is ambiguous by design)
+\* quotes INSIDE a text that is delimited by 3 or 4 quotes may stand raw as long as fewer than the delimiting number stand together
+\* (line breaks and blanks between them do not join them)
+RawQuoteTexts == { <<97, 34, 98>>, <<97, 34, 34, 98>>, <<97, 34, 10, 34, 34, 98>>, <<97, 34, 34, 10, 34, 98>>, <<97, 34, 32, 34, 34, 98>>, <<97, 34, 10, 34, 10, 34, 98>>,
+                   <<97, 34, 9, 34, 34, 98>>, <<97, 10, 34, 34, 10, 34, 98>>, <<97, 34, 34, 34, 98>>, <<97, 34, 34, 10, 34, 34, 98>> }
+RECURSIVE MaxRun(_, _, _)
+MaxRun(cs, cur, best) == IF cs = <<>> THEN (IF cur > best THEN cur ELSE best)
+                         ELSE IF cs[1] = 34 THEN MaxRun(Tail(cs), cur + 1, best) ELSE MaxRun(Tail(cs), 0, IF cur > best THEN cur ELSE best)
+RawQuoteCases == { [kind |-> "text", src |-> Quotes(DQ, nq) \o cs \o Quotes(DQ, nq), chars |-> cs] : cs \in { x \in RawQuoteTexts : TRUE }, nq \in {3, 4} }
 \* the single-quote byte has no character-form spelling that lexes (the lexer ends the token at every quote), it is spelled numerically
 ByteCases == { [kind |-> "bytes", src |-> SpellBytesChars(bs, enc), bytes |-> bs] : bs \in { x \in SeqsUpTo(ByteAlphabet, LEN) \ {<<>>} : 39 \notin Range(x) }, enc \in {"raw", "esc"} }
              \cup { [kind |-> "bytes", src |-> SpellBytesNums(bs, R), bytes |-> bs] : bs \in SeqsUpTo(ByteAlphabet, LEN) \ {<<>>}, R \in {10, 2, 8} }     \* the numeric form takes digits only (no letter digits)
              \cup { [kind |-> "bytes", src |-> <<39, 39>>, bytes |-> <<>>] }
 SymCases == { [kind |-> "sym", src |-> SpellSymbol(nm), name |-> nm] : nm \in Names }
-Init == k \in IntCases \cup BigCases \cup FracCases \cup TextCases \cup ByteCases \cup SymCases
+Init == k \in IntCases \cup BigCases \cup FracCases \cup TextCases \cup { c \in RawQuoteCases : MaxRun(c.chars, 0, 0) < Len(c.src) - Len(c.chars) - (Len(c.src) - Len(c.chars)) \div 2 } \cup ByteCases \cup SymCases
 Next == UNCHANGED k
 Spec == Init /\ [][Next]_k
 Emit == PrintT(<<"REPLAY", ToJson(k)>>)
